@@ -56,6 +56,7 @@ def run(ctx, R):
     x86hsem.rule_mem_hsem(ctx, R)
     x86hsem.rule_fp_hsem(ctx, R)
     x86loop.rule_loopstore(ctx, R)
+    x86loop.rule_loopload(ctx, R)
     a64hsem.rule_hsem(ctx, R)
     a64sem.rule_immhelp(ctx, R)
     a64hsem.rule_mem_hsem(ctx, R)
